@@ -13,11 +13,13 @@ Decl(lv, mode, i) ==
   CASE mode = "absent"   -> <<>>
     [] mode = "noreach"  -> << S("s", "or", <<"tag" \o lv>>, NoRisk, Expo(i), <<>>, NoX, NoR) >>
     [] mode = "override" -> << S("s", "or", <<"tag" \o lv>>, NoRisk, Expo(i), <<>>, NoX, Ovr(<< St("t" \o ToString(i)) >>)) >>
-    [] mode = "extend"   -> << S("s", "or", <<"tag" \o lv>>, NoRisk, Expo(i), <<>>, NoX, Ext(<< Col(F("fr"), St("t" \o ToString(i))) >>)) >>
+    \* every second level navigates through the root's variable "vr" (= the field fr) instead of the field itself
+    [] mode = "extend"   -> << S("s", "or", <<"tag" \o lv>>, NoRisk, Expo(i), <<>>, NoX,
+                                Ext(<< Col(IF i % 2 = 0 THEN Var("vr") ELSE F("fr"), St("t" \o ToString(i))) >>)) >>
 Targets == << Or("t0", NoR), Or("t1", NoR), Or("t2", NoR), Or("t3", NoR), Or("t4", NoR), Or("t5", NoR) >>
 FamilyLang(rootHas, m) ==
   Language("org.verif.fam",
-    << Asset("R0", NONE, <<>>, << S("s", "or", <<"root">>, NoRisk, Bern(5), <<>>, NoX, IF rootHas THEN Ovr(<< St("t0") >>) ELSE NoR) >> \o Targets),
+    << Asset("R0", NONE, << LetV("vr", F("fr")) >>, << S("s", "or", <<"root">>, NoRisk, Bern(5), <<>>, NoX, IF rootHas THEN Ovr(<< St("t0") >>) ELSE NoR) >> \o Targets),
        Asset("R1", "R0", <<>>, Decl("R1", m[1], 1)),
        Asset("R2", "R1", <<>>, Decl("R2", m[2], 2)),
        Asset("R3", "R2", <<>>, Decl("R3", m[3], 3)),
